@@ -1098,8 +1098,12 @@ func (a *Audit) mapMayBeNil(m ssa.Value) bool {
 		return false
 	case *ssa.UnOp:
 		if fa, ok := x.X.(*ssa.FieldAddr); ok {
+			// the map of a value handed in by pointer to an exported function: the host may have made the value with
+			// a literal that leaves the map out (&HashMap{} is a legal empty table), which can be read but not written
+			if p, isP := fa.X.(*ssa.Parameter); isP && p.Parent() != nil && p.Parent().Object() != nil && p.Parent().Object().Exported() && p.Parent().Signature.Recv() == nil {
+				return true
+			}
 			// field of a struct: initialised by the module's constructors (checked by ctor rule)
-			_ = fa
 			return false
 		}
 	case *ssa.Field:
